@@ -7,6 +7,7 @@ import (
 	"os"
 	"os/exec"
 	"path/filepath"
+	"regexp"
 	"runtime"
 	"runtime/debug"
 	"strconv"
@@ -100,7 +101,10 @@ type FaultOut struct {
 	StepErrs   []string       `json:"step_errs"`
 	FailStep   int            `json:"fail_step"`
 	LockLeak   string         `json:"lock_leak"`
-	Parked     string         `json:"parked"` // stack of the goroutine found parked on a lock nobody holds
+	Parked     string         `json:"parked"`      // stack of the workload goroutine found parked for ever on a lock
+	ParkedIn   string         `json:"parked_in"`   // "trie" | "chain"
+	ParkedPath string         `json:"parked_path"` // node functions from the lock call outwards
+	ParkedStep string         `json:"parked_step"` // workload step kind that never returned
 	PanicStep  int            `json:"panic_step"`
 	PanicText  string         `json:"panic_text"`
 	Violations []faultVio     `json:"violations"`
@@ -210,13 +214,14 @@ func FaultMain(args []string) int {
 			select {
 			case run = <-doneCh:
 			case <-tick.C:
-				if d := provenLockLeak(); d != "" {
+				if in, path, d := provenStuck(); d != "" {
 					if seen++; seen >= 3 {
-						out.Parked = d
-						run = &Run{J: jref, FailStep: -1, PanicStep: -1, Stopped: true, LockLeak: "trie_database_lock"}
+						out.Parked, out.ParkedIn, out.ParkedPath = d, in, path
+						run = &Run{J: jref, FailStep: -1, PanicStep: -1, Stopped: true, LockLeak: in + "_lock"}
 						if m := jref.Marks(); len(m) > 0 {
 							lab := m[len(m)-1].Label
 							run.FailStep, _ = strconv.Atoi(lab[:strings.IndexByte(lab, ':')])
+							out.ParkedStep = lab[strings.IndexByte(lab, ':')+1:]
 						}
 					}
 				} else {
@@ -251,16 +256,21 @@ func FaultMain(args []string) int {
 	return 0
 }
 
-// provenLockLeak inspects all goroutine stacks. It returns the stack of a
-// goroutine that is parked in sync.(*RWMutex).Lock called from the trie package
-// (whose only lock is the node database's) while no other goroutine is inside
-// the trie package at all and the lock cannot be taken - so it is held by no
-// running code - or "".
-func provenLockLeak() string {
+// provenStuck inspects all goroutine stacks and returns a proof that the
+// workload can never continue, or "". The proof: the workload goroutine is
+// parked in a sync lock acquisition called from node code; every other
+// goroutine is outside node code (apart from the chain's idle future-block
+// ticker), so no running code can release that lock - it is held by a method
+// that has returned, or by the parked goroutine itself further up its own
+// stack; and the non-blocking probe of that lock (hooks) fails. in tells whose
+// lock ("trie" node database, "chain" BlockChain mutexes), path lists the node
+// functions from the lock call outwards.
+func provenStuck() (in, path, stack string) {
 	buf := make([]byte, 1<<20)
 	buf = buf[:runtime.Stack(buf, true)]
-	const triePkg = "gitlab.com/aquachain/aquachain/trie."
-	parked := ""
+	const node = "gitlab.com/aquachain/aquachain/"
+	var work []string
+	workHdr := ""
 	for _, g := range strings.Split(string(buf), "\n\n") {
 		lines := strings.Split(g, "\n")
 		if len(lines) < 2 {
@@ -272,30 +282,80 @@ func provenLockLeak() string {
 				fns = append(fns, ln)
 			}
 		}
-		inTrie, waits := false, false
-		for i, fn := range fns {
-			if strings.HasPrefix(fn, triePkg) {
-				inTrie = true
+		isWork, firstNode := false, ""
+		for _, fn := range fns {
+			if strings.HasPrefix(fn, "verif/internal/prop/c04.(*Workload).execute") {
+				isWork = true
 			}
-			if strings.HasPrefix(fn, "sync.(*RWMutex).Lock(") && i+1 < len(fns) && strings.HasPrefix(fns[i+1], triePkg) {
-				waits = true
+			if firstNode == "" && strings.HasPrefix(fn, node) {
+				firstNode = fn
 			}
 		}
-		isParked := strings.Contains(lines[0], "[sync.RWMutex.Lock")
 		switch {
-		case waits && isParked && parked == "":
-			parked = g
-		case inTrie:
-			return "" // someone else is inside the trie package: no proof
+		case isWork:
+			work, workHdr, stack = fns, lines[0], g
+		case firstNode == "":
+			// runtime, signal handling, this monitor: cannot release a node lock
+		case strings.HasPrefix(firstNode, node+"core.(*BlockChain).update(") && strings.Contains(lines[0], "[select"):
+			// the chain's ticker loop, idle
+		default:
+			return "", "", "" // other node code is alive: no proof
 		}
 	}
-	if parked == "" {
-		return ""
+	if work == nil || !(strings.Contains(workHdr, "[sync.RWMutex.Lock") || strings.Contains(workHdr, "[sync.Mutex.Lock") || strings.Contains(workHdr, "[sync.RWMutex.RLock")) {
+		return "", "", ""
 	}
-	if bc, _ := liveChain.Load().(*core.BlockChain); bc == nil || bc.VerifC04TrieDB().VerifLockFree() {
-		return ""
+	var chain []string
+	for _, fn := range work {
+		if strings.HasPrefix(fn, node) {
+			short := strings.TrimPrefix(fn, node)
+			if i := strings.LastIndex(short, "("); i > 0 {
+				short = short[:i]
+			}
+			// "core.(*BlockChain).SetHead" -> "BlockChain.SetHead" (signature-safe)
+			short = reRecv.ReplaceAllString(short, "$1.")
+			chain = append(chain, short)
+		} else if len(chain) > 0 {
+			break
+		}
 	}
-	return parked
+	if len(chain) == 0 {
+		return "", "", ""
+	}
+	bc, _ := liveChain.Load().(*core.BlockChain)
+	if bc == nil {
+		return "", "", ""
+	}
+	switch {
+	case strings.HasPrefix(work0(work, node), node+"trie."):
+		if bc.VerifC04TrieDB().VerifLockFree() {
+			return "", "", ""
+		}
+		in = "trie"
+	case strings.HasPrefix(work0(work, node), node+"core.(*BlockChain)."):
+		if mu, chainmu, procmu := bc.VerifC04LocksFree(); mu && chainmu && procmu {
+			return "", "", ""
+		}
+		in = "chain"
+	default:
+		return "", "", ""
+	}
+	if len(chain) > 5 {
+		chain = chain[:5]
+	}
+	return in, strings.Join(chain, "<"), stack
+}
+
+var reRecv = regexp.MustCompile(`^[\w/]+\.\(\*?(\w+)\)\.`)
+
+// work0 returns the innermost node-code frame of a stack.
+func work0(fns []string, node string) string {
+	for _, fn := range fns {
+		if strings.HasPrefix(fn, node) {
+			return fn
+		}
+	}
+	return ""
 }
 
 // selectFailures lists the event indices of a plan.
@@ -409,11 +469,17 @@ func runFail(c *fw.Ctx, plan failPlan) {
 				c.Count("fail_on_preimage_batch_mid_flush")
 			}
 			r := results[j]
+			// the intermediate flush of a trie-database commit is another code
+			// path than its final write: keep the causes apart
+			cls := a.class[j]
+			if midFlush(&a.evs[j]) {
+				cls += "_mid_commit"
+			}
 			op := "failed_write_in_" + a.stepKind[j]
 			switch {
 			case r.to:
 				if strings.Contains(r.dmp, "sync.(*RWMutex).Lock") && strings.Contains(r.dmp, "trie.(*Database)") {
-					c.Violate("deadlock_after_failed_write", op, a.class[j], "process idle for the whole watchdog period with a goroutine parked in RWMutex.Lock of the trie database:\n"+truncate(r.dmp, 4000))
+					c.Violate("deadlock_after_failed_write", op, cls, "process idle for the whole watchdog period with a goroutine parked in RWMutex.Lock of the trie database:\n"+truncate(r.dmp, 4000))
 				} else {
 					c.Inconclusive("fault_process_watchdog")
 				}
@@ -432,12 +498,16 @@ func runFail(c *fw.Ctx, plan failPlan) {
 				for k, n := range o.Counters {
 					c.CountN("afterfail_"+k, n)
 				}
-				if o.Parked != "" {
-					c.Violate("lock_held_after_failed_write", op, a.class[j],
-						fmt.Sprintf("write %d (%s) returned an error during step %d; the same API call then blocked for ever: its goroutine is parked in RWMutex.Lock of the trie database while no goroutine is inside a trie-database method (the lock was left held by a method that returned):\n%s",
-							j, a.class[j], o.FailStep, truncate(o.Parked, 2500)))
+				if o.Parked != "" && o.ParkedIn == "trie" {
+					c.Violate("lock_held_after_failed_write", op, cls,
+						fmt.Sprintf("write %d (%s) returned an error during step %d; the same API call then blocked for ever: its goroutine is parked in a lock acquisition of the trie database (%s) while no other goroutine is inside node code and the lock cannot be taken (it was left held by a method that returned):\n%s",
+							j, a.class[j], o.FailStep, o.ParkedPath, truncate(o.Parked, 2500)))
+				} else if o.Parked != "" {
+					c.Violate("deadlock_after_failed_write", "blocked_in_"+o.ParkedStep, o.ParkedPath,
+						fmt.Sprintf("write %d (%s, during a %s step) returned an error; a later %s call (step %d) blocked for ever: its goroutine is parked in a lock acquisition at %s while no other goroutine is inside node code and the chain mutexes cannot be taken (step results before: %v):\n%s",
+							j, a.class[j], a.stepKind[j], o.ParkedStep, o.FailStep, o.ParkedPath, nonEmpty(o.StepErrs), truncate(o.Parked, 2500)))
 				} else if o.LockLeak != "" {
-					c.Violate("lock_held_after_failed_write", op, a.class[j],
+					c.Violate("lock_held_after_failed_write", op, cls,
 						fmt.Sprintf("write %d (%s) returned an error during step %d; after the API call returned, %s could not be taken although no method was running (step results: %v)",
 							j, a.class[j], o.FailStep, o.LockLeak, nonEmpty(o.StepErrs)))
 				} else {
